@@ -29,14 +29,15 @@ type bookGame struct {
 // genBookGames: random games from the start position with shared openings (transpositions,
 // duplicates), sometimes cut by an illegal move.
 var bookThemes = []string{
-	"e2e4 e7e5 g1f3 b8c6 f1b5 d7d6 e1g1 g8e7 d2d4 a7a6",                                              // Ne7 with the c6 knight pinned
-	"e2e4 a7a6 e4e5 d7d5 e5d6 e7d6 d2d4 c8g4 f2f3 g4h5 c1e3 b8c6 b1c3 d8d7 d1d2 e8c8 e1c1",           // en passant, O-O-O twice
-	"a2a4 b7b5 a4b5 a7a6 b5a6 c8b7 a6b7 b8c6 b7a8n g8f6 a8c7 d8c7",                                   // capture promotion to a knight
-	"h2h4 g7g5 h4g5 h7h6 g5h6 g8f6 h6h7 h8g8 h7h8q e7e6 g1f3 b8c6 e2e3 d7d6 f1e2 c8d7 e1g1",          // promotion without capture, O-O
-	"a2a4 b7b5 a4b5 a7a6 b5a6 c8b7 a6b7 b8c6 b7a8q",                                                  // the game ends with a promotion
-	"h2h4 g7g5 h4g5 h7h6 g5h6 g8f6 h6h7 h8g8 h7h8n",                                                  // ... with an under-promotion
-	"g1f3 g8f6 b1c3 b8c6 c3b5 c6b4 b5d4 b4d5 d4b3 d5b6 f3d4 f6d5 d4f3 d5f6 b3d4 b6d5 d4b5",           // twin knights: file disambiguation
-	"a2a4 h7h5 h2h4 a7a5 a1a3 h8h6 h1h3 a8a6 a3d3 h6d6 h3e3 a6b6 d3d4 d6d5 e3e4 b6b4 e4e5 d5d6 d4d5", // twin rooks on files and ranks
+	"e2e4 e7e5 g1f3 b8c6 f1b5 d7d6 e1g1 g8e7 d2d4 a7a6",                                                   // Ne7 with the c6 knight pinned
+	"e2e4 a7a6 e4e5 d7d5 e5d6 e7d6 d2d4 c8g4 f2f3 g4h5 c1e3 b8c6 b1c3 d8d7 d1d2 e8c8 e1c1",                // en passant, O-O-O twice
+	"a2a4 b7b5 a4b5 a7a6 b5a6 c8b7 a6b7 b8c6 b7a8n g8f6 a8c7 d8c7",                                        // capture promotion to a knight
+	"h2h4 g7g5 h4g5 h7h6 g5h6 g8f6 h6h7 h8g8 h7h8q e7e6 g1f3 b8c6 e2e3 d7d6 f1e2 c8d7 e1g1",               // promotion without capture, O-O
+	"a2a4 b7b5 a4b5 a7a6 b5a6 c8b7 a6b7 b8c6 b7a8q",                                                       // the game ends with a promotion
+	"h2h4 g7g5 h4g5 h7h6 g5h6 g8f6 h6h7 h8g8 h7h8n",                                                       // ... with an under-promotion
+	"g1f3 g8f6 b1c3 b8c6 c3b5 c6b4 b5d4 b4d5 d4b3 d5b6 f3d4 f6d5 d4f3 d5f6 b3d4 b6d5 d4b5",                // twin knights: file disambiguation
+	"a2a4 h7h5 h2h4 a7a5 a1a3 h8h6 h1h3 a8a6 a3d3 h6d6 h3e3 a6b6 d3d4 d6d5 e3e4 b6b4 e4e5 d5d6 d4d5",      // twin rooks on files and ranks
+	"f2f4 e7e5 f4e5 d7d6 e5d6 f8d6 g1h3 a7a6 e2e4 a6a5 f1e2 a5a4 h3g5 a4a3 g5f7 e8f7 e1g1 f7e8 d2d4 b8c6", // castling that gives check (O-O+)
 }
 
 func genBookGames(rng *Rng, n int) []bookGame {
@@ -46,7 +47,9 @@ func genBookGames(rng *Rng, n int) []bookGame {
 	// theme games first: notation corner cases every book must get right (pinned twin piece
 	// that makes a move only look ambiguous, en passant, both castlings, promotions with and
 	// without capture, file/rank disambiguation)
-	for _, line := range bookThemes {
+	themeOff := rng.Intn(len(bookThemes)) // collections are small: start somewhere else in the list every time
+	for ti := range bookThemes {
+		line := bookThemes[(themeOff+ti)%len(bookThemes)]
 		if len(games) >= n {
 			break
 		}
@@ -157,6 +160,9 @@ func sanLine(g bookGame, decorate func(i int) string) string {
 	for i, s := range g.san {
 		if i%2 == 0 {
 			fmt.Fprintf(&sb, "%d. ", i/2+1)
+		}
+		if decorate != nil && (i*7+len(g.san))%11 == 0 && !strings.ContainsAny(s, "z") { // a suffix annotation on the move itself (PGN import format)
+			s += []string{"!", "?", "!!", "!?", "?!", "??"}[i%6]
 		}
 		sb.WriteString(s + " ")
 		if decorate != nil {
